@@ -73,6 +73,7 @@ type obsT struct {
 	Unclosed    int    `json:"unclosed"`    // subscriptions whose channel did not close after cancel
 	WriterStall int    `json:"writerStall"` // writes that did not return within the bound after every subscriber was cancelled
 	PullIDOpen  int    `json:"pullIdOpen"`  // PullID channels still open after their item was removed
+	PullIDStall int    `json:"pullIdStall"` // writes stuck behind a PullID that ended because its item was removed
 	Subscribers int    `json:"subscribers"`
 	WritesDone  int    `json:"writesDone"`
 	// churn phase: subscribers that registered while others were cancelling and writers writing, never cancelled
@@ -705,6 +706,20 @@ func runStorm(c caseT) obsT {
 		_, _ = col.Delete(ids[2], resource.WithAllowMissing(true))
 		select {
 		case <-got:
+			// the subscription has ended by itself; its context is still live (nobody has to cancel a
+			// subscription that is over): writers are not held up by what it leaves behind
+			wrote := make(chan struct{})
+			go func() {
+				defer close(wrote)
+				for k := 0; k < 3; k++ {
+					_, _ = col.Update(ids[0], msg(500+k))
+				}
+			}()
+			select {
+			case <-wrote:
+			case <-time.After(4 * time.Second):
+				o.PullIDStall++
+			}
 		case <-time.After(5 * time.Second):
 			o.PullIDOpen++
 		}
@@ -960,7 +975,7 @@ func main() {
 		} else {
 			o = runBus(c)
 		}
-		if o.Drift != "" || o.Problem != "" || len(o.Panics) > 0 || o.Unclosed > 0 || o.WriterStall > 0 || o.Leaked > 0 || o.SurvivorMissed > 0 {
+		if o.Drift != "" || o.Problem != "" || len(o.Panics) > 0 || o.Unclosed > 0 || o.WriterStall > 0 || o.Leaked > 0 || o.SurvivorMissed > 0 || o.PullIDStall > 0 {
 			bad++
 		}
 		out.Write(o)
